@@ -71,7 +71,9 @@ def run(tier, seed, pid=PID, calls=CALLS, backend="z3"):
         by_src[src] = by_src.get(src, 0) + 1
         chk.note_case(steps, nontrivial(steps))
         v = verdicts[i]
-        if v["verdict"] != "ok":
+        if v["verdict"].endswith("Z3TimeLimit"):
+            chk.extra["inconclusive_z3_time_limit"] = chk.extra.get("inconclusive_z3_time_limit", 0) + 1
+        elif v["verdict"] != "ok":
             ev = traces[i]["events"][v["k"] - 1]
             chk.violation({"clause": v["verdict"]},
                           f"event {v['k']} of session rejected: {v['verdict']}",
